@@ -186,6 +186,7 @@ def unit_rate(model, sizes, vec, limit, use_t):
         npaths[0] += 1
         rp = c01._std_replay(model, sizes, None, "default", scale_of(model), limit=limit)
         rp["kind"] = "c06_sigma"
+        rp["vec"] = vec
         if out[0] != "return":
             recs.append(driver.rec(f"C06/{model}/rate/returns@{shape}", "refuted", "explorer", 0, fn=fn, shape=shape, note=repr(out[1]), replay=rp))
             return
@@ -230,6 +231,10 @@ def units(tier):
         for sizes in ([(1, 1), (2, 1)] if tier == "quick" else [(1, 1), (2, 1), (1, 1, 1)]):
             for limit in (False, True):
                 us.append(("unit_rate", (m, sizes, "ranks", limit, True)))
+        # the other two ways of giving the outcome run through their own code in rate()
+        for vec in ("scores", "none"):
+            for limit in (False, True):
+                us.append(("unit_rate", (m, (1, 1) if tier == "quick" else (2, 1), vec, limit, True)))
     us.sort(key=lambda u: -(sum(u[1][1]) * 2 ** len(u[1][1])) if u[0] != "unit_lemmas" else 0)
     return us
 
